@@ -146,6 +146,10 @@ pub struct MapRunner<K: KeyT, V: ValT> {
     rb: RefMap,
     /// predicate decisions of the last retain/extract_if: (key, answer, new v)
     preds: std::rc::Rc<std::cell::RefCell<Vec<(u64, bool, u64)>>>,
+    /// ownership ledger: ids of key/value objects that are owned by one of the collections
+    live: std::collections::BTreeSet<String>,
+    /// a leak is legitimate from here on (a drain was forgotten / a destructor panicked)
+    leak_ok: bool,
 }
 
 fn contents<K: KeyT, V: ValT>(m: &M<K, V>) -> RefMap {
@@ -325,6 +329,8 @@ impl<K: KeyT, V: ValT> MapRunner<K, V> {
             ra: RefMap::new(),
             rb: RefMap::new(),
             preds: Default::default(),
+            live: Default::default(),
+            leak_ok: false,
         }
     }
     fn sel(&mut self, tgt: &str) -> (&mut M<K, V>, &mut M<K, V>) {
@@ -509,6 +515,66 @@ impl<K: KeyT, V: ValT> MapRunner<K, V> {
         None
     }
 
+    /// Direct oracle for ownership: every key/value object moved into a collection is in exactly one
+    /// of {a collection, dropped once by the collection, handed back to the caller}.
+    fn ledger_step(&mut self, name: &str, a: &[&str], events: &[String], panicked: bool) -> Option<String> {
+        if !K::DROP || !K::IDS {
+            return None;
+        }
+        if name == "insert" && a.len() == 4 {
+            self.live.insert(format!("k{}", a[1]));
+            self.live.insert(format!("v{}", a[2]));
+        }
+        if name == "drain" && a.len() == 2 && a[1] == "1" {
+            self.leak_ok = true;
+        }
+        if events.iter().any(|_| false) || tape::with(|t| t.p.dpanic.is_some()) {
+            self.leak_ok = true;
+        }
+        let _ = panicked;
+        // clones appear with fresh ids
+        let mut held = std::collections::BTreeSet::new();
+        for m in [self.a.as_ref().unwrap(), self.b.as_ref().unwrap()] {
+            for (_, e) in contents(m) {
+                for id in [format!("k{}", e.0), format!("v{}", e.1)] {
+                    if !held.insert(id.clone()) {
+                        return Some(format!("object {} is held twice", id));
+                    }
+                }
+            }
+        }
+        for id in &held {
+            let n: u64 = id[1..].parse().unwrap();
+            if n >= 1_000_000 {
+                self.live.insert(id.clone());
+            }
+        }
+        for ev in events {
+            if let Some(id) = ev.strip_prefix('d') {
+                if !self.live.remove(id) {
+                    return Some(format!("object {} dropped twice (or never owned)", id));
+                }
+            }
+        }
+        for id in tape::take_returned() {
+            // probe keys / rejected arguments handed back are not in `live`; that is fine
+            self.live.remove(&id);
+        }
+        for id in &held {
+            if !self.live.contains(id) {
+                return Some(format!("object {} is in a collection but was dropped or returned", id));
+            }
+        }
+        if !self.leak_ok {
+            if let Some(id) = self.live.iter().find(|id| !held.contains(*id)) {
+                return Some(format!("object {} leaked: owned by no collection, never dropped, never returned", id));
+            }
+        } else {
+            self.live = held;
+        }
+        None
+    }
+
     fn run(&mut self, tgt: &str, name: &str, a: &[&str]) -> String {
         let n = |i: usize| -> u64 { a[i].parse().unwrap() };
         let rec = self.preds.clone();
@@ -668,6 +734,12 @@ impl<K: KeyT, V: ValT> Runner for MapRunner<K, V> {
         };
         quiet();
         let mut ret = ret;
+        let evs = tape::peek_events();
+        let panicked = ret.starts_with("panic");
+        if let Some(why) = self.ledger_step(name, args, &evs, panicked) {
+            ret.push_str(&format!(" ORACLE-LEDGER({})", why.replace(' ', "_")));
+            self.leak_ok = true;
+        }
         // direct oracles on the implementation, independent of the model
         if let Some(why) = inv_oracle(&self.get(tgt).verif_dump()) {
             ret.push_str(&format!(" ORACLE-INV({})", why.replace(' ', "_")));
